@@ -321,6 +321,52 @@ func main() {
 			wg.Wait()
 			return []string{u, u}, []string{"INBOX", "Spam"}
 		})
+		// 1c. two sessions on one mailbox move the same messages to Spam by the Junk keyword, one with a single STORE over the
+		// whole range, the other message by message from the top: every message ends up exactly once, in INBOX or in Spam
+		run("junk-moves-from-two-sessions", k, func(rd *round, k int) ([]string, []string) {
+			u := existing()
+			n := 6 + k
+			base := ids(n)
+			c0 := w.Login(u)
+			for i := 0; i < n; i++ {
+				c0.Append("INBOX", "", msg(base+i))
+			}
+			c0.Close()
+			var wg sync.WaitGroup
+			wg.Add(2)
+			go func() {
+				defer wg.Done()
+				c := w.Login(u)
+				c.Cmd("SELECT INBOX")
+				c.Cmd(fmt.Sprintf("STORE 1:%d +FLAGS.SILENT (Junk)", n))
+				c.Close()
+			}()
+			go func() {
+				defer wg.Done()
+				c := w.Login(u)
+				c.Cmd("SELECT INBOX")
+				for uid := n; uid > n/2; uid-- {
+					c.Cmd(fmt.Sprintf("UID STORE %d +FLAGS.SILENT (Junk)", uid))
+				}
+				c.Close()
+			}()
+			wg.Wait()
+			seen := map[int]int{}
+			for _, box := range []string{"INBOX", "Spam"} {
+				if l, ok := list(w, u, box); ok {
+					for _, m := range l.msgs {
+						seen[m]++
+					}
+				}
+			}
+			for i := 0; i < n; i++ {
+				if seen[base+i] != 1 {
+					rep.Violate("impl-violation", "every acknowledged message present exactly once (Props.C08.ack_exactly_once)", fmt.Sprintf("%s: after two sessions moved the messages of %s/INBOX to Spam by the Junk keyword (one STORE 1:%d, the other UID STORE from the top), m%d is there %d times in INBOX and Spam together", rd.name, u, n, base+i, seen[base+i]), []string{"round junk-moves-from-two-sessions"})
+					break
+				}
+			}
+			return nil, nil
+		})
 		// 2. the same through two managers
 		run("deliver-same-two-managers", k, func(rd *round, k int) ([]string, []string) {
 			u := existing()
